@@ -223,6 +223,9 @@ func runC12(r *core.Run) {
 			}
 			for c := 0; c < n; c++ {
 				pads := []int{0, 4, 8}
+				if thorough(r) {
+					pads = []int{0, 1, 2, 3, 4, 5, 7, 8, 12}
+				}
 				for _, pa := range pads {
 					for _, pb := range pads {
 						for _, pc := range pads {
